@@ -263,6 +263,12 @@ def run(ctx, ids=("R05-PAIR", "R05-RECOVER", "R05-PRED", "R05-CURSOR"), own=True
     rc.require(40, "functions with recovery sites")
     if not own:
         return
+    # an iteration of a repetition includes the implicit skip before it: a failed iteration gives that skip back
+    from . import c07
+    rgb = ctx.rule("R05-GIVEBACK", "a failed iteration of a repetition leaves the loop-carried cursor as it was before the iteration, the implicit "
+                   "skip before it included (R07-GIVEBACK instances)")
+    c07.giveback_rule(ctx, world, rgb)
+    rgb.require(8, "repetition loops")
     ctx.assume("pest::Stack::{snapshot, restore, clear_snapshot} do what their documentation says; known exception in pest 2.7.14: "
                "clear_snapshot of an inner snapshot forgets pops made under it, so a later outer restore does not bring them back "
                "(r = { PUSH(\"a\") ~ ((POP? ~ \"x\") | (PEEK ~ \"y\")) } on \"aay\") — dependency defect, no construct in /repo is wrong")
